@@ -93,7 +93,7 @@ mod vk_seq {
         }
     }
 
-    // @harness name=seq_slice_nowrap props=C04,C01,C02,C03,C05,C06,C10,C11 kind=bounded bound="slice length <= 3; three symbolic operations (next, next_chunk(n), buffered next(n), try_get_len/has_more, skip_to_end) then into_seq_iter; n over the full usize domain with cumulative requests <= usize::MAX"
+    // @harness name=seq_slice_nowrap group=default,nodebug props_nodebug=C17 props=C04,C01,C02,C03,C05,C06,C10,C11,C17 kind=bounded bound="slice length <= 3; three symbolic operations (next, next_chunk(n), buffered next(n), try_get_len/has_more, skip_to_end) then into_seq_iter; n over the full usize domain with cumulative requests <= usize::MAX"
     #[kani::proof]
     #[kani::unwind(6)]
     fn seq_slice_nowrap() { run_slice(true); }
@@ -146,7 +146,7 @@ mod vk_seq {
         else { chk!(c, r.start >= r.end, "[C10 seq-remainder] into_seq_iter yields nothing but the undelivered remainder"); }
     }
 
-    // @harness name=seq_range_nowrap props=C04,C01,C02,C03,C05,C06,C10,C11 kind=bounded bound="range length <= 3, any start; three symbolic operations (next, next_chunk(n), try_get_len, skip_to_end) then into_seq_iter; cumulative requests <= usize::MAX"
+    // @harness name=seq_range_nowrap group=default,nodebug props_nodebug=C17 props=C04,C01,C02,C03,C05,C06,C10,C11,C17 kind=bounded bound="range length <= 3, any start; three symbolic operations (next, next_chunk(n), try_get_len, skip_to_end) then into_seq_iter; cumulative requests <= usize::MAX"
     #[kani::proof]
     #[kani::unwind(5)]
     fn seq_range_nowrap() { run_range(true); }
